@@ -1,6 +1,6 @@
 (* C02 -- returned MathML is well-formed canonical MathML (serialization and the parser's part).  Statements only. *)
 From MC Require Import Lib.Base Lib.Tree Gen.OpDict Gen.EscapeTab Model.ParserCore Model.Parser Model.ParserSpec Model.PrettyPrint
-     Proofs.PrettyPrintP Proofs.ParserArity Proofs.ParserPlaced.
+     Proofs.PrettyPrintP Proofs.ParserArity Proofs.ParserPlaced Gen.AssureSets Model.Assure Proofs.AssureP.
 Local Open Scope N_scope.
 
 (* the escape table of handle_special_chars (regenerated from src/pretty_print.rs on every run): every entry has the
@@ -35,3 +35,23 @@ Print Assumptions parser_keeps_arity.
 Theorem built_rows_have_two_children : forall t, row_okb t = true -> (2 <= List.length (pkids t))%nat.
 Proof. exact L_row_ok_two_children. Qed.
 Print Assumptions built_rows_have_two_children.
+
+(* the validation in front of everything (assure_mathml, name sets regenerated from the source), for EVERY tree it
+   accepts and EVERY element of the part that is kept (of a semantics element: its presentation child): an element with
+   a fixed number of children has that number; the children of mmultiscripts are a base, pairs and at most one
+   mprescripts followed by pairs; a token has no child or one text child, an empty element none; the name is a MathML
+   presentation element (or semantics); with the parser keeping arities (above) this is where the arities of the
+   returned tree come from *)
+Theorem validated_elements_have_their_arity : forall t g e kids, assure t = true -> kept t (El g e kids) ->
+  (in_names g fixed_children = true -> List.length kids = fixed_count g) /\
+  (g = s_mmultiscripts -> paired kids) /\
+  (in_names g leaf_nodes = true -> (if in_names g empty_elements then kids = [] else kids = [] \/ kids = [Tx]) /\ g <> s_annotation) /\
+  (in_names g leaf_nodes = true \/ g = s_semantics \/ in_names g all_mathml_elements = true).
+Proof. exact L_validated_arities. Qed.
+Print Assumptions validated_elements_have_their_arity.
+
+(* a second mprescripts is refused wherever it stands *)
+Theorem two_prescripts_are_refused : forall e a p b q c, is_pre p = true -> is_pre q = true ->
+  assure (El s_mmultiscripts e (a ++ p :: b ++ q :: c)) = false.
+Proof. exact L_two_prescripts_refused. Qed.
+Print Assumptions two_prescripts_are_refused.
